@@ -396,10 +396,17 @@ UTS(d, S, t, r, ev) ==
       Sd  == IF si0 # 0 /\ ev.kind = "item" THEN [Sc EXCEPT !.staged[StagedIdx(Sc, t, r)].items[ev.item + 1] = ev.status] ELSE Sc
       \* l.902: failed execution is logged
       Se  == IF ev.status = "failed" THEN LogErr(Sd, "exec_failed", t, -1, "none", ev.res) ELSE Sd
+      orphan == ev.kind = "item" /\ StagedIdx(Se, t, r) = 0
+                /\ ev.status \in {"resuming", "pending", "paused", "succeeded", "failed", "timeout", "abandoned", "canceled"}
       old == Se.seq[li].st
-      new == TkNext(old, ActionEventName(Se, t, r, ev))
+      new == IF orphan THEN old ELSE TkNext(old, ActionEventName(Se, t, r, ev))
       Sf  == [Se EXCEPT !.seq[li].st = new]
   IN
+  IF orphan
+  THEN \* an item reports although its task has no staged entry any more (downstream of S8b, or a dormant
+       \* item of a task that already completed): machines.py m.529 subscripts None -> TypeError
+       [S |-> Se, ret |-> "TypeError"]
+  ELSE
   IF si0 # 0 /\ ev.kind = "item" /\ ~Sb.staged[si0].hasitems
   THEN \* known finding S8b: the items list was reset by a late arrival; l.899 raises KeyError after
        \* the entry has been un-staged at l.892
@@ -471,5 +478,69 @@ Render(d, S) ==
        IN IF ro.nerr = 0 THEN S1
           ELSE LET S2 == LogN(S1, ro.nerr, "expr", "none", -1, "none")
                IN IF S2.wf \in {"timeout", "abandoned", "canceled"} THEN S2 ELSE Req(d, S2, "failed").S
+
+(* ------------------------------------------------------------------------------------------ *)
+(* API: request_workflow_rerun (l.1187-1307)                                                  *)
+TaskSeqIdx(S, t, r) ==                                             \* get_task_sequence l.109: one level deep
+  {RecIdxOf(S, t, r)} \cup
+  {i \in 1..Len(S.seq) : \E k \in DOMAIN S.seq[i].prev :
+       LET v == S.seq[i].prev[k] + 1 IN S.seq[v].id = t /\ S.seq[v].route = r}
+
+RerunOne(d, S, t, r, reset) ==                                     \* _request_task_rerun l.1187
+  LET li  == RecIdxOf(S, t, r)
+      cx  == S.seq[li].ctxin
+      pv  == S.seq[li].prev
+      S1  == [S EXCEPT !.seq[li].term = FALSE]
+      si  == StagedIdx(S1, t, r)
+      S2  == IF si # 0 THEN [S1 EXCEPT !.staged[si].completed = FALSE] ELSE S1
+      S3  == [S2 EXCEPT !.errs = SelectSeq(@, LAMBDA e : e.task # t)]
+      S4  == IF HasItems(d, t) /\ si # 0          \* (as repaired) without a staged entry the task is run again as a whole
+             THEN [S3 EXCEPT !.staged[si].items = [k \in 1..Len(@) |-> IF reset = 1 \/ @[k] \in Abended THEN "null" ELSE @[k]]]
+             ELSE LET Sa == AddRecord(d, S3, t, r, cx, pv)
+                  IN [Sa EXCEPT !.staged = Append(@, NewStaged(t, r, cx, pv, TRUE, FALSE))]
+      seqi == TaskSeqIdx(S4, t, r)
+  IN [S4 EXCEPT !.seq = [i \in 1..Len(S4.seq) |-> IF i \in seqi THEN [S4.seq[i] EXCEPT !.term = FALSE] ELSE S4.seq[i]]]
+
+RECURSIVE RerunAll(_, _, _)
+RerunAll(d, S, cs) == IF cs = << >> THEN S ELSE RerunAll(d, RerunOne(d, S, cs[1][1], cs[1][2], cs[1][3]), Tail(cs))
+
+(* reqs : Seq(<<task, route, reset (0/1)>>) in request order; returns [S, ret] *)
+Rerun(d, S, reqs) ==
+  IF S.wf \notin Completed THEN [S |-> S, ret |-> "WorkflowIsActiveAndNotRerunableError"]
+  ELSE
+  LET keys  == [i \in 1..Len(reqs) |-> Rid(reqs[i][1], reqs[i][2])]
+      \* duplicates: the last request with a key wins, at the position of the first
+      first == SelectSeq([i \in 1..Len(reqs) |-> i], LAMBDA i : \A j \in 1..(i - 1) : keys[j] # keys[i])
+      lastOf(i) == MaxOf({j \in 1..Len(reqs) : keys[j] = keys[i]})
+      tasks == [k \in 1..Len(first) |-> reqs[lastOf(first[k])]]
+  IN
+  IF \E k \in 1..Len(tasks) : Rid(tasks[k][1], tasks[k][2]) \notin DOMAIN S.ptr
+  THEN [S |-> S, ret |-> "InvalidTaskRerunRequest"]
+  ELSE
+  LET sq(k) == TaskSeqIdx(S, tasks[k][1], tasks[k][2])
+      keep  == IF Len(tasks) <= 1 THEN {k \in 1..Len(tasks) : TRUE}
+               ELSE {k \in 1..Len(tasks) : \E j \in 1..Len(tasks) : sq(k) \ sq(j) # {}}   \* _collapse_task_rerun_requests
+      \* default: abended terminal records that are not engine commands (fix fd8119a), latest per (task, route)
+      isd(i) == S.seq[i].term /\ S.seq[i].st \in Abended /\ S.seq[i].id \notin Cmds
+      same(i, j) == S.seq[j].id = S.seq[i].id /\ S.seq[j].route = S.seq[i].route
+      \* a dict keyed by task/route: position of the first such record, value of the last
+      dflt  == {i \in 1..Len(S.seq) : isd(i) /\ \A j \in 1..(i - 1) : ~(isd(j) /\ same(i, j))}
+      lastd(i) == MaxOf({j \in 1..Len(S.seq) : isd(j) /\ same(i, j)})
+      cands == IF Len(tasks) = 0
+               THEN [k \in 1..Cardinality(dflt) |-> LET i == lastd(Asc(dflt)[k]) IN <<S.seq[i].id, S.seq[i].route, 0, i - 1>>]
+               ELSE LET ks == Asc(keep) IN
+                    [k \in 1..Len(ks) |-> <<tasks[ks[k]][1], tasks[ks[k]][2], tasks[ks[k]][3],
+                                            S.ptr[Rid(tasks[ks[k]][1], tasks[ks[k]][2])]>>]
+  IN
+  IF cands = << >> THEN [S |-> S, ret |-> "InvalidTaskRerunRequest"]
+  ELSE
+  LET S1 == [S EXCEPT !.reruns = Append(@, [k \in 1..Len(cands) |-> cands[k][4]])]
+      ord == SortSeq(cands, LAMBDA a, b : d.rank[a[1]] < d.rank[b[1]] \/ (a[1] = b[1] /\ a[2] < b[2]))
+      S2 == RerunAll(d, S1, ord)
+      \* continuable candidates: terminal records with a satisfied transition are no longer terminal
+      S3 == [S2 EXCEPT !.seq = [i \in 1..Len(S2.seq) |->
+                IF S2.seq[i].term /\ \E k \in DOMAIN S2.seq[i].next : S2.seq[i].next[k]
+                THEN [S2.seq[i] EXCEPT !.term = FALSE] ELSE S2.seq[i]]]
+  IN [S |-> [S3 EXCEPT !.hasout = FALSE, !.out = << >>, !.wf = "resuming"], ret |-> "ok"]
 
 =============================================================================
